@@ -28,6 +28,18 @@ def expm_herm(H, t):
     return (v * np.exp(-1j * w * t)) @ v.conj().T
 
 
+def propagator_herm(H):
+    """t -> exp(-i H t) for Hermitian H, one eigendecomposition for all times (H in any units: eigh is scale-invariant)"""
+    w, v = np.linalg.eigh((H + H.conj().T) / 2)
+    return lambda t: (v * np.exp(-1j * w * t)) @ v.conj().T
+
+
+def rel_dev(vec, ref, psi0):
+    """largest deviation relative to the largest amplitude of the initial state (states of any norm)"""
+    a = float(np.max(np.abs(psi0)))
+    return float(np.max(np.abs(vec - ref))) / (a if a > 0 else 1.0)
+
+
 def mode_of(name):
     from pytreenet.time_evolution.time_evolution import TimeEvoMode
     return {"expm": TimeEvoMode.EXPM, "default": TimeEvoMode.FASTEST, "RK45": TimeEvoMode.RK45, "RK23": TimeEvoMode.RK23,
@@ -146,9 +158,10 @@ def _run_case(case):
         if "exception" not in ob:
             if sub == "saturated":
                 devs = []
+                prop = propagator_herm(sysd["H"])
                 for k, m in enumerate(ob["measure"]):
-                    ref = expm_herm(sysd["H"], m.get("t", k) * sysd["dt"]) @ psi0      # dt = the REQUESTED time step
-                    devs.append(float(np.max(np.abs(m["vec"] - ref))) / max(1.0, float(np.max(np.abs(psi0)))))
+                    ref = prop(m.get("t", k) * sysd["dt"]) @ psi0      # dt = the REQUESTED time step
+                    devs.append(rel_dev(m["vec"], ref, psi0))
                 ob["exact_dev"] = devs
             if sub == "reverse":
                 # same object, same sweep: replace H by -H, rebuild the environment cache, step again
@@ -161,7 +174,7 @@ def _run_case(case):
                 for _ in range(nsteps):
                     algo.run_one_time_step()
                 v = util.dense_vec(copy.deepcopy(algo.state), sysd["ids"])
-                ob["reverse_dev"] = float(np.max(np.abs(v - psi0))) / max(1.0, float(np.max(np.abs(psi0))))
+                ob["reverse_dev"] = rel_dev(v, psi0, psi0)
                 # a fresh object on the evolved state (only comparable when it sweeps in the same order)
                 sys2 = dict(sysd, ttns=state1, ttno=ttno_neg, ham=neg)
                 algo2 = S.make_algo(kind, sys2, mode=mode, nsteps=nsteps)
@@ -169,7 +182,7 @@ def _run_case(case):
                     for _ in range(nsteps):
                         algo2.run_one_time_step()
                     v2 = util.dense_vec(copy.deepcopy(algo2.state), sysd["ids"])
-                    ob["reverse_dev_fresh"] = float(np.max(np.abs(v2 - psi0))) / max(1.0, float(np.max(np.abs(psi0))))
+                    ob["reverse_dev_fresh"] = rel_dev(v2, psi0, psi0)
                 else:
                     # A sweep permutes the children orders of the state, so a NEW object built on the evolved state may sweep in
                     # another order (seen on trees with several side branches below one node).  Then step(-H) of the new object
@@ -180,7 +193,7 @@ def _run_case(case):
                     for _ in range(nsteps):
                         algo2.run_one_time_step()
                     v2 = util.dense_vec(copy.deepcopy(algo2.state), sysd["ids"])
-                    ob["reverse_dev_fresh_other_path"] = float(np.max(np.abs(v2 - psi0))) / max(1.0, float(np.max(np.abs(psi0))))
+                    ob["reverse_dev_fresh_other_path"] = rel_dev(v2, psi0, psi0)
                     ob["fresh_update_path"] = [S.nid(x) for x in algo2.update_path]
         return strip_vecs(ob)
     except S._Skip as s:
@@ -200,7 +213,11 @@ class C06(Prop):
             "against exp(-iH k dt) by eigendecomposition). Configurations: final times the time step does not divide (0.66 .. 7.14 dt) for "
             "saturated systems (by hand and through the public run() with a recorded observable; reference = the REQUESTED dt) and every "
             "seventh tree case. Histories on one object (trees 4..9 nodes): steps / reset_to_initial_state() / steps, evaluate_operators() "
-            "between steps, run(): structure, canonical form, norm and energy after every action. non-trivial = >= 2 nodes; distinct by content")
+            "between steps, run(): structure, canonical form, norm and energy after every action. Units / scales: the Hamiltonian multiplied by "
+            "2^hexp, hexp in [-44, 24] in four bands (energies 1e-13 .. 1e7) with the time step divided by the same power of two (time steps "
+            "1e13 .. 1e-7, H dt as for the unscaled system), every fifth state rescaled by 2^-30 .. 2^16: every third such case a saturated "
+            "two-node system against exp(-iH k dt) (EXPM and default mode), the others run / reverse on trees with 2..6 nodes; deviations of "
+            "states are judged relative to max|psi0|, energies relative to max|H|. non-trivial = >= 2 nodes; distinct by content")
     clauses = [
         ("F", "both traces are defined on every tree with unique ids (second order: >= 2 nodes) — the step raises no IndexError-type failure "
               "(C06_first_order_runs, C06_second_order_runs); the structural assertions of the first-order class (first node is a leaf, last node has "
@@ -235,7 +252,8 @@ class C06(Prop):
                     "np.linalg.eigh for the reference propagator; einsum for dense states; kron for the dense Hamiltonian",
                     "expm / Chebyshev kernels of the library are exercised, not modelled (C20)"]
     assumptions = ["Hermitian Hamiltonian for the conservation/reversibility clauses; exponential-based modes (EXPM, default = Chebyshev)",
-                   "time step chosen per case as a power of two with ||H|| dt in (1/2, 1] (times dtscale) so that the expm kernels work at nominal accuracy",
+                   "time step chosen per case as a power of two with ||H|| dt in (1/2, 1] (times dtscale) so that the expm kernels work at nominal accuracy "
+                   "(in the scale family: the same H dt, with H and 1/dt multiplied by the same power of two)",
                    "reversibility of states is exact (1e-15 observed) when every bond is at its full Schmidt rank; on zero-padded / rank-deficient bonds the "
                    "sweep is reversible only up to O(dt^3) (known finding C06-reversal-rank-deficient)",
                    "reversibility is judged for ONE sweep order: the same object with H replaced by -H, and a new object on the evolved state when it "
@@ -295,6 +313,26 @@ class C06(Prop):
             return {"sub": "run", "herm": True, "coeffs": j % 4 == 0, "ttno_shuffle": j % 2 == 0,
                     "mode": "default" if j % 5 == 0 else "expm", "nterms": rng.choice([1, 2, 3])}
         cases += S.gen_history_cases(rng, ctx.scale(12, 300) * budget_scale, ["tdvp1", "tdvp2"], base)
+        # UNITS / SCALES ("all Hermitian Hamiltonians, all step sizes, all normalised or unnormalised initial states"): the
+        # Hamiltonian in units 2^-44 .. 2^24 with the time step scaled inversely (H dt as for the unscaled system), every fifth
+        # state rescaled by 2^-30 .. 2^16; every third case a saturated two-node system against exp(-iH k dt), the others
+        # run / reverse on small trees.  All judgements are relative (norm, energy against max|H|, amplitudes against max|psi0|)
+
+        def sbase(rng, j, par):
+            return {"sub": "reverse" if j % 4 == 1 else "run", "herm": True, "coeffs": j % 4 == 0, "ttno_shuffle": j % 2 == 0,
+                    "mode": "default" if j % 5 == 0 else "expm", "nterms": rng.choice([1, 2, 3]),
+                    "nsteps": rng.choice([1, 2]) if len(par) <= 5 else 1}
+
+        def ssat(rng, j):
+            d = rng.choice([2, 3])
+            return {"par": [None, 0], "sub": "saturated", "phys": [d, d], "bond": {1: d}, "mode": "default" if j % 2 else "expm",
+                    "nsteps": rng.choice([1, 2]), "nterms": rng.choice([2, 3, 4]), "coeffs": j % 4 == 0}
+        sc = S.gen_scaled_cases(rng, ctx.scale(24, 480) * budget_scale, ["tdvp1", "tdvp2"], sbase, saturated=ssat)
+        for c in sc:
+            if c["kind"] == "tdvp1" and c["sub"] == "reverse":
+                c["sub"] = "run"
+        sat = [c for c in sc if c["sub"] == "saturated"]
+        cases = sat + cases + [c for c in sc if c["sub"] != "saturated"]      # (exactness clauses first, see above)
         return cases
 
     def nontrivial(self, case):
@@ -311,6 +349,7 @@ class C06(Prop):
             c["history=" + x.get("hist", "steps")] += 1
             if x.get("tratio") is not None and x["tratio"] != int(x["tratio"]):
                 c["final-time-not-multiple-of-dt"] += 1
+            S.scale_distribution(c, x)
         return dict(c)
 
     def impl(self, ctx, cases):
